@@ -60,6 +60,14 @@ func runReplay(path string) int {
 		fmt.Printf("not reproduced: %s %q does not fail on the current tree\n", head.Inv, head.Sig)
 		return 0
 	}
+	if head.Engine == "triesim" || head.Engine == "c20sys" {
+		if replayC20Stored(path) {
+			fmt.Printf("VIOLATION property=%s replay=%s\n  reproduced: %s %q\n", head.Property, path, head.Inv, head.Sig)
+			return 1
+		}
+		fmt.Printf("not reproduced: %s %q does not fail on the current tree\n", head.Inv, head.Sig)
+		return 0
+	}
 	if head.Engine == "heapsim" {
 		tc := buildToolchain()
 		if replayHeapStored(tc, path) {
